@@ -748,6 +748,9 @@ func runC08(c *config) {
 	for i := 0; i < 500*c.scale; i++ {
 		c08Module(c, r, i < 2)
 	}
+	for i, rq := 0, newRng(c.seed, "c08-quoted-numbers"); i < 300*c.scale; i++ {
+		c08QuotedModule(c, rq) // names that are numbers in quotes next to unnamed entities (c08quoted.go)
+	}
 	// numbers written with leading zeros are the same numbers (decimal, as LLVM reads them): a chain of unnamed
 	// values long enough to have IDs of 8 and more, every definition and use spelled with up to two leading zeros
 	for i := 0; i < 60*c.scale; i++ {
